@@ -2,4 +2,17 @@
 NOTES = ('Machine-checked proof in Lean 4 over a hand-written model of pytenet, tied to /repo by a differential correspondence '
          'check on every run (see DESIGN.md). Four genuine defects were repaired with fix: commits (known_findings.txt).')
 NOT_APPLICABLE = {}
-CHECKS = {}
+KERNEL_NOTE = ('Trusted: Lean kernel; axioms propext/Classical.choice/Quot.sound only; the hand-written model, tied to /repo by the '
+               'exact differential correspondence run in every check (uninterpreted-kernel mode: dense LAPACK/SciPy kernels are replaced by '
+               'deterministic fakes on the Python side and by the recorded answers on the model side); kernel contracts are hypotheses; '
+               'exact field arithmetic (IEEE rounding not modelled).')
+CHECKS = {
+ 'C12': {
+  'text': 'Proof (partial): the truncation rule is proved in full for every spectrum, tolerance and every (unstable) sorting permutation over any '
+          'linear ordered field: kept indices valid, discarded weight <= tol, kept >= discarded, maximality, positivity, tol=0 keeps exactly the '
+          'non-zero values, zero spectrum (13 theorems, Props/C12Rule.lean). The block-SVD glue (isometry, sparsity, error identity of split_matrix_svd, '
+          'split_mps_tensor) is modelled and tied to the code by exact correspondence; its theorems are listed under not_proved in the evidence until they land.',
+  'note': KERNEL_NOTE + ' NormContract/SortContract/SVDContract are assumptions about np.linalg.norm / np.argsort / np.linalg.svd.',
+  'design_ref': 'DESIGN.md §7 C12',
+ },
+}
